@@ -24,17 +24,22 @@ BAD_UNPARSABLE = "SELECT FROM WHERE"
 
 
 class ScriptGen:
-    def __init__(self, g, tag: str, universe=None, base=None, allow_drop_rename=True, allow_cte=True):
+    def __init__(self, g, tag: str, universe=None, base=None, allow_drop_rename=True, allow_cte=True, known=None):
         self.g = g
         self.tag = tag
         self.universe = list(universe or UNIVERSE)
         self.base = dict(base if base is not None else BASE_META)
+        # what the metadata provider knows about the base tables (defaults to everything)
+        self.known = dict(known) if known is not None else self.base
         self.cols: dict[str, list[str]] = {}  # columns this script itself defined, per table
         self.n = 0
         self.sub = 0
         self.allow_drop_rename = allow_drop_rename
         self.allow_cte = allow_cte
         self.written: list[str] = []
+        self.annot: list[dict] = []  # per generated statement: what the generator knows about it
+        self.strict_subquery_cols = False  # True: a derived table is only asked for columns it projects
+        self._sel: dict = {}
 
     # -- helpers
     def newcol(self) -> str:
@@ -42,6 +47,9 @@ class ScriptGen:
         return f"c_{self.tag}_{self.n}"
 
     def known_cols(self, t: str) -> list[str]:
+        return self.cols.get(t) or self.known.get(t) or []
+
+    def real_cols(self, t: str) -> list[str]:
         return self.cols.get(t) or self.base.get(t) or []
 
     def pick_src_table(self) -> str:
@@ -54,8 +62,8 @@ class ScriptGen:
         return g.choice(self.universe)
 
     def colref(self, t: str) -> str:
-        kc = self.known_cols(t)
-        if kc and self.g.random() < 0.9:
+        kc = self.real_cols(t)
+        if kc and (self.g.random() < 0.9 or (self.strict_subquery_cols and t.startswith("__sub"))):
             return self.g.choice(kc)
         return f"u_{self.tag}_{self.g.randrange(3)}"
 
@@ -92,13 +100,17 @@ class ScriptGen:
         items = []
         out: list[str] | None = []
         kind = g.random()
+        self._sel = {"srcs": [t for t, _ in srcs], "star": False, "wild": False}
         if kind < 0.22:
             items.append("*")
             out = None
+            self._sel["star"] = True
+            self._sel["wild"] = True
             if len(srcs) == 1 and self.known_cols(srcs[0][0]):
                 out = list(self.known_cols(srcs[0][0]))
         elif kind < 0.34 and len(srcs) == 2:
             which = g.choice([0, 1])
+            self._sel["wild"] = True
             items.append(f"{srcs[which][1]}.*")
             oc = self.known_cols(srcs[which][0])
             out = list(oc) if oc else None
@@ -176,6 +188,12 @@ class ScriptGen:
                 self.cols[t] = list(out)
             if t not in self.written:
                 self.written.append(t)
+            a = {"kind": kind, "target": t, "out": list(out) if out else None, "srcs": list(self._sel.get("srcs", [])),
+                 "star": bool(self._sel.get("star")) and kind != "insert_cols" and not sql.startswith("INSERT INTO %s WITH" % t),
+                 "wild": bool(self._sel.get("wild"))}
+            if sql.startswith("INSERT INTO %s WITH" % t):
+                a["srcs"], a["star"], a["wild"] = [], False, False
+            self.annot.append(a)
             return sql
         if r < 0.72:
             sel, _ = self.select()
@@ -209,4 +227,10 @@ class ScriptGen:
         return sel
 
     def script(self, n: int) -> list[str]:
-        return [self.stmt() for _ in range(n)]
+        out = []
+        for _ in range(n):
+            k = len(self.annot)
+            out.append(self.stmt())
+            if len(self.annot) == k:
+                self.annot.append({"kind": "other", "target": None, "out": None, "srcs": [], "star": False, "wild": False})
+        return out
